@@ -13,7 +13,10 @@
 // Deliberately boring: every operation decodes, computes modulo q with uint64 arithmetic, and encodes.
 package field
 
-import "math/big"
+import (
+	"math/big"
+	"sync/atomic"
+)
 
 const (
 	// SecLength is the security length dictating the input length for HashToFieldElement.
@@ -67,6 +70,9 @@ func VerifSetQ(q uint64) {
 	}
 }
 
+// VerifForeign counts the decodings of limbs that are not in the stand-in's own form (see VerifDec).
+var VerifForeign atomic.Uint64
+
 // VerifQ returns the current prime.
 func VerifQ() uint64 { return verifQ }
 
@@ -81,6 +87,10 @@ func VerifDec(e *MontgomeryDomainFieldElement) (uint64, bool) {
 		v := e[0] / verifR
 		return v % verifQ, v < verifQ
 	}
+
+	// limbs that no operation of this stand-in produces: a field literal of the tree under test (a constant of the
+	// real curve) - counted, so that the harness can tell when the code it runs depends on such constants
+	VerifForeign.Add(1)
 
 	var nm NonMontgomeryDomainFieldElement
 
